@@ -1317,3 +1317,178 @@ Proof.
   - rewrite S10, S6. repeat split.
   - rewrite S10, S6. exact S1.
 Qed.
+
+(* ------------------------------------------------------------------------------------------ *)
+(* the C04 statements at the level of the responder's listener *)
+
+(* x was handed to the node during this block period: answered from the memo, or a K_send was logged *)
+Definition given (sc : script) (t : tower) (h : N) (log : list rpc_event) (x : N) : Prop :=
+  aget (car_memo t) x <> None \/ In (mk_rpc K_send x (blk_eff sc t h x)) log.
+
+Lemma given_of_cov sc t h t5 x :
+  carried sc (set_car_height t h) t5 -> aget (car_memo t5) x = Some (blk_eff sc t h x) ->
+  given sc t h (rpc_log t5) x.
+Proof.
+  intros Hc Hm. unfold given. destruct (aget (car_memo t) x) eqn:E; [left; discriminate|right].
+  apply (ca_memo_new _ _ _ Hc); [exact E|exact Hm].
+Qed.
+
+Lemma blk_eff_fresh sc t h x :
+  aget (car_memo t) x = None ->
+  blk_eff sc t h x = send_status (set_car_height t h) (snd (script_get sc x)).
+Proof. intros H. unfold blk_eff, eff_status. cbn [car_memo set_car_height]. rewrite H. reflexivity. Qed.
+
+Lemma blk_eff_fresh_ok sc t h x :
+  aget (car_memo t) x = None -> snd (script_get sc x) = A_ok -> blk_eff sc t h x = InMempoolSince h.
+Proof. intros H Ha. rewrite blk_eff_fresh by exact H. rewrite Ha. reflexivity. Qed.
+
+Lemma blk_eff_memo sc t h x r : aget (car_memo t) x = Some r -> blk_eff sc t h x = r.
+Proof. intros H. unfold blk_eff, eff_status. cbn [car_memo set_car_height]. rewrite H. reflexivity. Qed.
+
+Theorem completes_iff_100 le sc t b h t' :
+  Inv t -> r_block_connected le sc t b h = Ok tt t' ->
+  (forall k, In k (db_trks t) ->
+     (In (trk_uuid k) (completed_list (keys_of (ib_data b)) h t) <->
+      memN (t_penalty k) (keys_of (ib_data b)) = false /\ mem_uuid (trk_uuid k) (reorged t) = false /\
+      t_conf k = true /\ t_height k <= h /\ h - t_height k = IRR)) /\
+  (forall u, In u (completed_list (keys_of (ib_data b)) h t) ->
+     find_trk (db_trks t') u = None /\ find_app (db_apps t') u = None /\ exists a, find_app (db_apps t) u = Some a) /\
+  (forall u, aget (gk_users t') u =
+             option_map (credit (refund_total (db_apps t) (completed_list (keys_of (ib_data b)) h t) u)) (aget (gk_users t) u)) /\
+  (forall u, aget (db_users t') u =
+             option_map (credit (refund_total (db_apps t) (completed_list (keys_of (ib_data b)) h t) u)) (aget (db_users t) u)).
+Proof.
+  intros HI E. destruct (r_block_connected_facts le sc t b h t' HI E) as [lim [t5 F]].
+  pose proof (inv_trks_nodup t HI) as Hnd.
+  split; [|split; [|split]].
+  - intros k Hk. rewrite in_completed_list. split.
+    + intros [k' [Hk' [He Hc]]]. assert (k' = k) by (apply (same_uuid_same_row (db_trks t)); auto). subst k'.
+      apply completes_iff. exact Hc.
+    + intros H. exists k. split; [exact Hk|]. split; [reflexivity|]. apply completes_iff. exact H.
+  - intros u Hu. destruct (rf_completed_apps _ _ _ _ _ _ _ F u Hu) as [Ha Hn]. split; [|split; assumption].
+    rewrite (rf_rows _ _ _ _ _ _ _ F). apply in_completed_list in Hu. destruct Hu as [k [Hk [He Hc]]].
+    subst u. rewrite (find_trk_In_NoDup _ k Hnd Hk). apply completes_iff in Hc. destruct Hc as [C1 [C2 [C3 [C4 C5]]]].
+    unfold fate. rewrite C1, C2, C3, C5, N.eqb_refl. reflexivity.
+  - exact (rf_mem _ _ _ _ _ _ _ F).
+  - exact (rf_db _ _ _ _ _ _ _ F).
+Qed.
+
+(* nothing is completed: no balance moves, whatever else the block deletes *)
+Lemma refund_total_nil apps u : refund_total apps [] u = 0.
+Proof. reflexivity. Qed.
+
+Lemma refund_total_not_owner apps us u :
+  (forall uuid, In uuid us -> snd uuid <> u) -> refund_total apps us u = 0.
+Proof.
+  induction us as [|uuid r IH]; intros H; [reflexivity|]. cbn [refund_total].
+  rewrite IH by (intros x Hx; apply H; right; exact Hx).
+  destruct (find_app apps uuid) as [a|] eqn:Ea; [|reflexivity].
+  apply find_app_Some in Ea. destruct Ea as [_ Ea]. destruct (N.eqb (a_user a) u) eqn:E; [|reflexivity].
+  apply N.eqb_eq in E. exfalso. apply (H uuid (or_introl eq_refl)). rewrite <- Ea. exact E.
+Qed.
+
+(* a user none of whose trackers completes in this block keeps its balance, in memory and on disk *)
+Corollary no_completion_no_refund le sc t b h t' u :
+  Inv t -> r_block_connected le sc t b h = Ok tt t' ->
+  (forall uuid, In uuid (completed_list (keys_of (ib_data b)) h t) -> snd uuid <> u) ->
+  aget (gk_users t') u = aget (gk_users t) u /\ aget (db_users t') u = aget (db_users t) u.
+Proof.
+  intros HI E Hn. destruct (completes_iff_100 le sc t b h t' HI E) as [_ [_ [Hg Hd]]].
+  rewrite Hg, Hd, (refund_total_not_owner _ _ _ Hn), !option_map_credit_0. split; reflexivity.
+Qed.
+
+Theorem reorg_reannounce le sc t b h t' u k :
+  Inv t -> r_block_connected le sc t b h = Ok tt t' ->
+  find_trk (db_trks t) u = Some k -> In u (reorged t) ->
+  reorged t' = [] /\
+  ~ In u (completed_list (keys_of (ib_data b)) h t) /\
+  if memN (t_penalty k) (keys_of (ib_data b))
+  then find_trk (db_trks t') u = Some (restamp k h true)
+  else
+    is_confirmed (blk_eff sc t h (t_dispute k)) = false /\
+    given sc t h (rpc_log t') (t_dispute k) /\
+    if status_rejected (blk_eff sc t h (t_dispute k)) then find_trk (db_trks t') u = None
+    else given sc t h (rpc_log t') (t_penalty k) /\
+         if status_rejected (blk_eff sc t h (t_penalty k)) then find_trk (db_trks t') u = None
+         else find_trk (db_trks t') u = Some (restamp k h false).
+Proof.
+  intros HI E Hf Hu. destruct (r_block_connected_facts le sc t b h t' HI E) as [lim [t5 F]].
+  pose proof (inv_trks_nodup t HI) as Hnd. destruct (find_trk_Some _ _ _ Hf) as [Hk Hku].
+  pose proof Hu as Hm. apply mem_uuid_In in Hm.
+  split; [exact (rf_reorged _ _ _ _ _ _ _ F)|]. split.
+  { intros Hc. apply in_completed_list in Hc. destruct Hc as [k' [Hk' [He Hc]]].
+    apply completes_iff in Hc. destruct Hc as [_ [Hr _]]. rewrite He in Hr. congruence. }
+  pose proof (rf_rows _ _ _ _ _ _ _ F u) as Hrow. rewrite Hf in Hrow. unfold fate in Hrow. rewrite Hku, Hm in Hrow.
+  destruct (memN (t_penalty k) (keys_of (ib_data b))) eqn:Em; [exact Hrow|].
+  destruct (rf_cov_reorg _ _ _ _ _ _ _ F u k Hf Em Hu) as [C1 [C2 C3]].
+  rewrite (rf_log _ _ _ _ _ _ _ F).
+  split; [exact C1|]. split; [apply given_of_cov; [exact (rf_carried _ _ _ _ _ _ _ F)|exact C2]|].
+  unfold trk_rejected in Hrow.
+  destruct (status_rejected (blk_eff sc t h (t_dispute k))) eqn:Ed; [exact Hrow|].
+  split; [apply given_of_cov; [exact (rf_carried _ _ _ _ _ _ _ F)|exact (C3 eq_refl)]|].
+  cbn [orb] in Hrow. destruct (status_rejected (blk_eff sc t h (t_penalty k))); exact Hrow.
+Qed.
+
+Theorem rebroadcast_cadence le sc t b h t' u k :
+  Inv t -> r_block_connected le sc t b h = Ok tt t' ->
+  find_trk (db_trks t) u = Some k -> t_conf k = false -> ~ In u (reorged t) ->
+  memN (t_penalty k) (keys_of (ib_data b)) = false ->
+  RETRY <= h /\
+  if N.leb (t_height k + RETRY) h
+  then given sc t h (rpc_log t') (t_penalty k) /\
+       find_trk (db_trks t') u =
+       match blk_eff sc t h (t_penalty k) with
+       | Rejected _ => None
+       | ConfirmedIn hh => Some (restamp k hh true)
+       | InMempoolSince hh => Some (restamp k hh false)
+       | IrrevocablyResolved => Some (restamp k h false)
+       end
+  else find_trk (db_trks t') u = Some k.
+Proof.
+  intros HI E Hf Hc Hu Em. destruct (r_block_connected_facts le sc t b h t' HI E) as [lim [t5 F]].
+  destruct (find_trk_Some _ _ _ Hf) as [Hk Hku].
+  pose proof Hu as Hm. apply mem_uuid_false in Hm.
+  destruct (retry_lim h lim (rf_lim _ _ _ _ _ _ _ F)) as [Hlt [Hlim Hle]]. split; [exact Hle|].
+  pose proof (rf_rows _ _ _ _ _ _ _ F u) as Hrow. rewrite Hf in Hrow. unfold fate in Hrow. rewrite Hku, Hm, Em, Hc in Hrow.
+  destruct (N.leb_spec (t_height k + RETRY) h) as [Hs|Hs].
+  - assert (Hl : t_height k <= lim) by lia. split.
+    + rewrite (rf_log _ _ _ _ _ _ _ F). apply given_of_cov; [exact (rf_carried _ _ _ _ _ _ _ F)|].
+      exact (rf_cov_stale _ _ _ _ _ _ _ F u k Hf Em Hu Hc Hl).
+    + apply N.leb_le in Hl. rewrite Hl in Hrow. rewrite Hrow. unfold stale_upd.
+      destruct (blk_eff sc t h (t_penalty k)); reflexivity.
+  - assert (Hl : lim < t_height k) by lia. apply N.leb_gt in Hl. rewrite Hl in Hrow. exact Hrow.
+Qed.
+
+(* the restamp is the height at which the node was given the penalty: this block's height ... *)
+Corollary rebroadcast_restamps_now le sc t b h t' u k :
+  Inv t -> r_block_connected le sc t b h = Ok tt t' ->
+  find_trk (db_trks t) u = Some k -> t_conf k = false -> ~ In u (reorged t) ->
+  memN (t_penalty k) (keys_of (ib_data b)) = false -> t_height k + RETRY <= h ->
+  aget (car_memo t) (t_penalty k) = None -> snd (script_get sc (t_penalty k)) = A_ok ->
+  In (mk_rpc K_send (t_penalty k) (InMempoolSince h)) (rpc_log t') /\
+  find_trk (db_trks t') u = Some (restamp k h false).
+Proof.
+  intros HI E Hf Hc Hu Em Hs Hmemo Hok.
+  destruct (rebroadcast_cadence le sc t b h t' u k HI E Hf Hc Hu Em) as [_ H].
+  apply N.leb_le in Hs. rewrite Hs in H. unfold given in H. rewrite (blk_eff_fresh_ok sc t h _ Hmemo Hok) in H.
+  destruct H as [[Hg|Hg] Hrow]; [congruence|]. split; assumption.
+Qed.
+
+(* ... or the stamp the carrier memoized earlier in this block period *)
+Corollary rebroadcast_restamps_memo le sc t b h t' u k hh :
+  Inv t -> r_block_connected le sc t b h = Ok tt t' ->
+  find_trk (db_trks t) u = Some k -> t_conf k = false -> ~ In u (reorged t) ->
+  memN (t_penalty k) (keys_of (ib_data b)) = false -> t_height k + RETRY <= h ->
+  aget (car_memo t) (t_penalty k) = Some (InMempoolSince hh) ->
+  find_trk (db_trks t') u = Some (restamp k hh false).
+Proof.
+  intros HI E Hf Hc Hu Em Hs Hmemo.
+  destruct (rebroadcast_cadence le sc t b h t' u k HI E Hf Hc Hu Em) as [_ H].
+  apply N.leb_le in Hs. rewrite Hs in H. rewrite (blk_eff_memo sc t h _ _ Hmemo) in H. tauto.
+Qed.
+
+(* 6, block level: an unconfirmed tracker is never deleted with refund *)
+Theorem unconfirmed_never_refunded le sc t b h t' k :
+  Inv t -> r_block_connected le sc t b h = Ok tt t' -> In k (db_trks t) -> t_conf k = false ->
+  ~ In (trk_uuid k) (completed_list (keys_of (ib_data b)) h t).
+Proof. intros HI _ Hk Hc. apply never_completes_unconfirmed; assumption. Qed.
